@@ -1,0 +1,11 @@
+//go:build verif
+
+package reedsolomon
+
+import "github.com/makiuchi-d/gozxing/verifhook"
+
+// VerifSnapshot hashes the package-level tables (monitor use only: taken at
+// quiescent points before and after a concurrent workload).
+func VerifSnapshot() uint64 {
+	return verifhook.DeepHash(GenericGF_AZTEC_DATA_12, GenericGF_AZTEC_DATA_10, GenericGF_AZTEC_DATA_6, GenericGF_AZTEC_PARAM, GenericGF_QR_CODE_FIELD_256, GenericGF_DATA_MATRIX_FIELD_256)
+}
